@@ -19,7 +19,15 @@ MANIFEST = dict(
            "pending and due within one interval; exact count of refresh chains; timer thread never stuck; the variant that "
            "returns early on a failed build is refuted by a witness) and tied by running /repo's gids.c and timer.c together "
            "with scripted NSS failures and SIGHUPs inside refreshes (harness/gids_timer_harness.c) against the extracted "
-           "model, the recurrence clause being evaluated directly on the implementation's log.",
+           "model, the recurrence clause being evaluated directly on the implementation's log.  The PRNG stir service is "
+           "proved from EVERY initial condition (TimerStirModel, Properties_C18_stir.v: whatever amount of seed entropy "
+           "random_init found — first start, short seed file, complete seed file — a stir timer is pending at all times, set "
+           "between 1 s and the maximum + stagger before its expiry; a due one can always be dispatched; the interval reaches "
+           "the maximum within 15 stirs; random_init makes exactly one set of the callback, the premise of the periodic "
+           "theorem; the schedule equals tables MEASURED by running /repo's random.c on every run; the variant that skips the "
+           "start-up stir of a fully seeded pool is refuted) and the real callbacks are run from three initial conditions "
+           "(seed file absent, complete, short, and the two sizes around RANDOM_BYTES_WANTED) over several "
+           "maximum-length intervals.",
            "7 C18"),
     note="Trusted: Coq kernel, gen_facts probe, extraction, harness/driver glue, the --wrap shims for clock_gettime "
          "and pthread_cond_{wait,timedwait,signal}; timer.c itself is modelled and tied by differential testing, not "
@@ -499,21 +507,61 @@ def read_facts():
     return {m.group(1): int(m.group(2)) for m in re.finditer(r"Definition (\w+) : Z := (-?\d+)\.", txt)}
 
 
-def check_periodic(ctx, exe, steps=None):
+def stir_steps(ctx):
+    """clock steps aimed at the stir service: around the short enhanced intervals, then several maximum-length
+    intervals (exactly at, just before and just after the expiry incl. the stagger), jumps over more than one"""
+    rng = ctx.rng
+    facts = read_facts()
+    mx = facts["stir_max_secs"] * 1000
+    steps, t = [], 0
+    for _ in range(24):
+        t += rng.choice([1000, 2000, 2500, 4000, 8000, 16500, 33000, 70000])
+        steps.append("t %d" % t)
+    for _ in range(40 if ctx.thorough else 14):
+        t += rng.choice([mx - 1, mx, mx + 1023, mx + 1024, mx // 2, 2 * mx + 5000, 3600000])
+        steps.append("t %d" % t)
+    return steps
+
+
+def make_seed(ctx, nbytes):
+    """a seed file as a previous run of munged leaves it (regular, owner-only, in a private directory)"""
+    p = os.path.join(ctx.tmp, "seed-%s" % ("none" if nbytes is None else nbytes))
+    if os.path.exists(p):
+        os.unlink(p)
+    if nbytes is not None:
+        fd = os.open(p, os.O_WRONLY | os.O_CREAT | os.O_TRUNC, 0o600)
+        os.write(fd, os.urandom(nbytes))
+        os.close(fd)
+    return p
+
+
+def check_periodic(ctx, exe, steps=None, seed_bytes=None, tag="periodic"):
     """Real replay_purge / _gids_map_update / _random_stir_entropy under a virtual clock, judged by an independent
     statement of "the service recurs": each service always has exactly one timer pending; when the clock reaches
     it the callback runs at that reading and arms the next one (replay: +60 s; gids: +interval, and a
-    gids_update arms an immediate one that replaces the pending one; random: doubling interval up to the
-    maximum plus < 1024 ms)."""
+    gids_update arms an immediate one that replaces the pending one; random: from EITHER initial condition —
+    seed file absent/short: 2 s then doubling; complete: the maximum at once — a delay of at least a second and at
+    most the maximum plus < 1024 ms, following the doubling schedule exactly)."""
     facts = read_facts()
     steps = steps or periodic_steps(ctx)
-    rc, out, err = vlib.run_lines([exe], steps, timeout=900, env={"ASAN_OPTIONS": "detect_leaks=0:exitcode=99"})
-    lines = [l for l in out if l.split(" ")[0] in ("ARM", "OP", "END") or l.startswith("!")]
+    seed = make_seed(ctx, seed_bytes)
+    rc, out, err = vlib.run_lines([exe, seed], steps, timeout=900, env={"ASAN_OPTIONS": "detect_leaks=0:exitcode=99"})
+    lines = [l for l in out if l.split(" ")[0] in ("ARM", "OP", "END", "INIT") or l.startswith("!")]
+    where = "seed file %s" % ("absent" if seed_bytes is None else "of %d bytes" % seed_bytes)
     for l in lines:
         if l.startswith("!"):
-            return "periodic harness: " + l, steps, lines
+            return "periodic harness (%s): %s" % (where, l), steps, lines
     if rc != 0 or not lines or not lines[-1].startswith("END"):
-        return "periodic harness failed rc=%d: %s" % (rc, (err or "")[-600:]), steps, lines
+        return "periodic harness (%s) failed rc=%d: %s" % (where, rc, (err or "")[-600:]), steps, lines
+    init_rv = [int(l.split()[1]) for l in lines if l.startswith("INIT")]
+    lines = [l for l in lines if not l.startswith("INIT")]
+    # which initial condition this is, by the source's own threshold; random_init's return value must agree
+    counted = 128 + min(seed_bytes or 0, facts["random_seed_bytes"]) + 4
+    full = counted >= facts["random_bytes_wanted"]
+    if init_rv and (init_rv[0] == 1) != full:
+        ctx.notes.append("%s: random_init returned %d for %s (%d bytes expected to be counted): the kernel source gave "
+                         "a different amount; following the return value" % (tag, init_rv[0], where, counted))
+        full = init_rv[0] == 1
     segs, cur = [], ("start", [])
     for l in lines:
         f = l.split()
@@ -528,8 +576,10 @@ def check_periodic(ctx, exe, steps=None):
     pend = {}          # service -> expiry (ms) of its one pending timer
     counts = {"replay": 0, "gids": 0, "random": 0}
     stir = None
+    corr = None
     now = 0
     rp, gi = facts["replay_purge_secs"] * 1000, facts["group_update_secs"] * 1000
+    mx, jit = facts["stir_max_secs"], facts["stir_jitter_max"]
     for op, arms in segs:
         exp = []       # expected (service, delay or None for the stir rule) in any order
         if op == "start":
@@ -550,6 +600,11 @@ def check_periodic(ctx, exe, steps=None):
             e = [ms for s, ms in exp if s == svc]
             if len(g) != len(e):
                 if len(g) < len(e):
+                    if svc == "random" and op == "start":
+                        return ("PRNG stir service: random_init (%s, pool %sfully seeded) set NO stir timer: the PRNG is "
+                                "never stirred for the life of this daemon (the first call of _random_stir_entropy is "
+                                "the only place the self re-arming timer is first set)"
+                                % (where, "" if full else "not ")), steps, lines
                     return ("service %s did not re-arm: its timer (expiry %s ms) was due at clock %d ms (op %r) "
                             "and %d re-arm call(s) were seen, %d expected: the service stops recurring"
                             % (svc, pend.get(svc), now, op, len(g), len(e))), steps, lines
@@ -557,11 +612,18 @@ def check_periodic(ctx, exe, steps=None):
                         % (svc, len(g), now, op, len(e))), steps, lines
             for gm, em in zip(sorted(g), sorted(x if x is not None else -1 for x in e)):
                 if em == -1:
+                    # the clause: at least a second, at most the maximum plus the stagger
+                    if gm < 1000 or gm > mx * 1000 + jit:
+                        return ("PRNG stir re-armed %d ms ahead (%s): outside [1 s, maximum %d s + %d ms]"
+                                % (gm, where, mx, jit)), steps, lines
                     s2 = stir_secs_of(gm, facts)
                     if s2 is None:
                         return "PRNG stir delay %d ms is not 2^k s + <1024 ms" % gm, steps, lines
-                    if stir is not None and s2 != min(2 * stir, facts["stir_max_secs"]) and s2 != stir:
-                        return "PRNG stir interval went from %d s to %d s" % (stir, s2), steps, lines
+                    want = (mx if full else min(2, mx)) if stir is None else min(2 * stir, mx)
+                    if s2 != want and corr is None:      # a deviation from the model; keep judging the clause itself
+                        corr = ("CORR: PRNG stir interval is %d s, TimerStirModel (the schedule read off random.c) says %d s (%s; previous interval %s); "
+                                "the recurrence clause itself holds on this log"
+                                % (s2, want, where, "none: this is the timer random_init sets" if stir is None else "%d s" % stir))
                     stir = s2
                 elif gm != em:
                     return "service %s armed +%d ms, expected +%d ms" % (svc, gm, em), steps, lines
@@ -570,9 +632,10 @@ def check_periodic(ctx, exe, steps=None):
                 pend[svc] = now + max(g) if svc != "gids" else now + gi
     for svc in ("replay", "gids", "random"):
         if pend.get(svc) is None or pend[svc] <= final:
-            return "service %s has no timer pending beyond the final clock reading" % svc, steps, lines
-    ctx.cov["periodic"] = dict(counts, virtual_hours=round(final / 3600000.0, 1), steps=len(steps))
-    return None, steps, lines
+            return "service %s has no timer pending beyond the final clock reading (%s)" % (svc, where), steps, lines
+    ctx.cov[tag] = dict(counts, virtual_hours=round(final / 3600000.0, 1), steps=len(steps), seed_file=where,
+                        stir_fully_seeded=full, last_stir_interval_s=stir)
+    return corr, steps, lines
 
 
 def gallina_case(line):
@@ -675,7 +738,7 @@ def crosscheck_extraction(ctx, lines, mod):
 
 def run(ctx):
     ctx.level = "proof"
-    proved = vlib.prove(ctx, ["Properties_C18.v", "Properties_C18_gids.v"], facts=["timer", "gids"])
+    proved = vlib.prove(ctx, ["Properties_C18.v", "Properties_C18_gids.v", "Properties_C18_stir.v"], facts=["timer", "gids"])
     ctx.log("proofs:", "ok" if proved else "BROKEN: " + getattr(ctx, "broken_obligation", "?"))
     ctx.cov["rule"] = (
         "proof: Properties_C18.v over TimerModel (constants regenerated from timer.c/clock.c/random.c/munge_defs.h); "
@@ -687,7 +750,9 @@ def run(ctx):
         "_gids_map_update, _random_stir_entropy callbacks (every munged source but munged.c linked) for 600 (3000) clock "
         "steps = 100+ (600+) virtual hours with forward jumps and SIGHUP-style gids_update calls, judged by an "
         "independent statement of 'each service always has one timer pending and re-arms at the first clock reading "
-        "at or after its expiry'; a sample of oracle answers re-evaluated with vm_compute inside Coq; "
+        "at or after its expiry'; the same from the other initial conditions of the PRNG stir service (a complete 1024-byte "
+        "seed file as a previous run leaves it; a short one) with clock steps at, just before and just after the "
+        "maximum-length stir expiries and jumps over several of them; a sample of oracle answers re-evaluated with vm_compute inside Coq; "
         "pair = /repo's gids.c AND timer.c linked together (T lines of tools/props/c17_pair.py): scripts of database "
         "edits, clock steps and jumps around the interval, transient group-database failures at any entry, SIGHUPs at "
         "top level and parked inside refreshes, intervals 0/1/60/3600 — compared with the extracted GidsTimerModel and "
@@ -790,11 +855,30 @@ def run(ctx):
         ctx.violation("periodic harness does not build against /repo: " + perr[-600:],
                       {"obligation": "correspondence C18 periodic (build)", "stderr": perr}, found_input=False)
     elif not replay_obj or rsteps:
-        why, steps, plines = check_periodic(ctx, pexe, steps=rsteps)
-        ctx.count("periodic:" + " ".join(steps))
-        ctx.log("periodic services:", why or "ok %s" % ctx.cov.get("periodic"))
-        if why:
-            ctx.violation("periodic services: " + why, {"periodic_steps": steps, "log_tail": plines[-40:], "why": why})
+        # the three initial conditions of the PRNG stir service: seed file absent (first start: the main run with
+        # replay purge, gids refresh and SIGHUPs), complete (a later start: maximum interval at once), short;
+        # thorough adds the two files around RANDOM_BYTES_WANTED
+        facts = read_facts()
+        edge = facts["random_bytes_wanted"] - 128 - 4
+        conds = [(None, rsteps, "periodic")]
+        if not replay_obj:
+            conds += [(facts["random_seed_bytes"], stir_steps(ctx), "periodic_seeded"), (100, stir_steps(ctx), "periodic_short_seed"),
+                      (edge, stir_steps(ctx), "periodic_seed_exact"), (edge - 1, stir_steps(ctx), "periodic_seed_one_short")]
+            if ctx.thorough:
+                conds += [(None, stir_steps(ctx), "periodic_first_start_long"), (4000, stir_steps(ctx), "periodic_seed_oversize")]
+        elif "seed_bytes" in replay_obj:
+            conds = [(replay_obj["seed_bytes"], rsteps, "periodic")]
+        for sb, st, tag in conds:
+            why, steps, plines = check_periodic(ctx, pexe, steps=st, seed_bytes=sb, tag=tag)
+            ctx.count("%s:%s:%s" % (tag, sb, " ".join(steps)))
+            ctx.log("periodic services (%s):" % tag, why or "ok %s" % ctx.cov.get(tag))
+            if why:
+                corr = why.startswith("CORR: ")
+                ctx.violation("periodic services: " + (why[6:] if corr else why),
+                              {"periodic_steps": steps, "seed_bytes": sb, "log_tail": plines[-40:], "why": why,
+                               **({"obligation": "correspondence TimerStirModel ~ random.c"} if corr else {})},
+                              found_input=not corr)
+                break
     # verdict
     if race_hits:
         l, o, why = race_hits[0]
